@@ -1639,6 +1639,11 @@ class RecInterp(FxInterp):
             raise Unanalysable('`?` on a value the evaluator does not model')
         if k == 'mcall' and e.get('name') == 'take' and not e.get('args'):
             r = peel(e['recv'])
+            if r.get('k') == 'path' and r.get('res') == 'Local' and r.get('path') in env:
+                old = env[r['path']]
+                if isinstance(old, tuple) and len(old) >= 2 and old[0] == 'ctor' and old[1].startswith('core::option::Option::'):
+                    env[r['path']] = ('ctor', 'core::option::Option::None')
+                    return old
             if r.get('k') == 'field':
                 try:
                     base = self.val(r['base'], env)
